@@ -3,16 +3,23 @@
     programs only name existing slots. *)
 From Coq Require Import List Arith Bool Lia Permutation.
 From Thunder Require Import Reactive.Graph Reactive.Rerunner Reactive.ProofsBase Reactive.ProofsEdge
-  Reactive.ProofsMutex Reactive.ProofsArmed Reactive.ProofsClosed Reactive.ProofsShape.
+  Reactive.ProofsMutex Reactive.ProofsArmed Reactive.ProofsClosed Reactive.ProofsShape Reactive.ProofsJoin.
 Import ListNotations.
 
-(** the only labels with a blocking enabling condition: r.mu.Lock() in Rerunner.run and in Stop *)
+(** the labels that wait: r.mu.Lock() in Rerunner.run and in Stop, and the join of branch goroutines *)
 Definition blocked (s : state) (f : frame) : bool :=
   match f with
   | FRunLock r => r_mu (getr s r)
   | FStop r true => r_mu (getr s r)
+  | FJoin _ jid => negb (Nat.eqb (fst (nth jid (s_joins s) (0, false))) 0)
   | _ => false
   end.
+
+(** A cache lookup never returns the computation that is doing the lookup (a computation is stored when its
+    function has returned).  This is not proved for the model; it is a hypothesis of [progress] and is checked
+    on every state of every replayed trace. *)
+Definition no_self_hit (s : state) : Prop :=
+  forall r key body c, In (FCacheGet r key body c) (all_frames s) -> cache_get (r_cache (getr s r)) key <> Some c.
 
 Lemma do_add_out_enabled : forall s n to,
   n < length (s_nodes s) -> to < length (s_nodes s) -> n <> to -> exists s1 sp, do_add_out s n to = Some (s1, sp).
@@ -40,10 +47,11 @@ Qed.
 Lemma top_enabled : forall s f rest,
   closed_on (s_nodes s) (s_slots s) (s_rrs s) (all_frames s) ->
   mutex_on (s_rrs s) (all_frames s) ->
+  no_self_hit s -> uwshape (f :: rest) ->
   In f (all_frames s) -> norm (f :: rest) = f :: rest -> blocked s f = false ->
   exists arg r, step_top s f rest arg = Some r.
 Proof.
-  intros s f rest [A [B [C [D [E F]]]]] Mx Hin Nm Nb.
+  intros s f rest [A [B [C [D [E F]]]]] Mx Ns Uw Hin Nm Nb.
   assert (Fo := C f Hin). unfold step_top.
   destruct f; simpl in Fo.
   - destruct l as [|x l']; [simpl in Nm; destruct rest; try discriminate; exfalso; clear - Nm;
@@ -89,7 +97,7 @@ Proof.
         (induction st as [|g t IH]; simpl; [lia|]; destruct g; simpl; try lia;
          [destruct l; simpl; lia | destruct froms; simpl; lia | destruct p; simpl; lia]).
       assert (Q := K rest). rewrite Nm in Q. simpl in Q. lia.
-    + destruct o; [exists 0 | exists 0 | exists 2 | exists 0 | exists 0]; simpl; eexists; reflexivity.
+    + destruct o; [exists 0 | exists 0 | exists 2 | exists 0 | exists 0 | exists 0]; simpl; eexists; reflexivity.
   - exists 0. destruct Fo as [F1 [[F2 F3] [F4 F5]]].
     assert (Ne : res <> c) by (intros Q; subst; congruence).
     destruct (do_add_out_enabled s res c F4 F1 Ne) as [s1 [sp Q]]. rewrite Q. eexists. reflexivity.
@@ -101,6 +109,18 @@ Proof.
   - exists 0. destruct (cache_get (r_cache (getr s r)) key); eexists; reflexivity.
   - exists 0. destruct Fo as [F1 [F2 F3]].
     destruct (do_add_out_enabled s child parent F1 F2 F3) as [s1 [sp Q]]. rewrite Q. eexists. reflexivity.
+  - (* FCacheGet *)
+    exists 0. destruct (cache_get (r_cache (getr s r)) key) as [child|] eqn:Cg; [|eexists; reflexivity].
+    destruct (Nat.eqb child c) eqn:Ec; [|eexists; reflexivity].
+    apply Nat.eqb_eq in Ec. subst child. exfalso. eapply Ns; eauto.
+  - exists 0. eexists. reflexivity.
+  - (* FJoin *)
+    exists 0. simpl in Nb. destruct (nth jid (s_joins s) (0, false)) as [nb failed]. simpl in Nb.
+    apply negb_false_iff in Nb. rewrite Nb. destruct failed; [|eexists; reflexivity].
+    unfold do_fail. destruct Uw as [U1 _]. specialize (U1 r eq_refl).
+    destruct (unwind r rest) as [[[[cs ks] below] [j|]]|]; [eexists; reflexivity | eexists; reflexivity | congruence].
+  - exists 0. eexists. reflexivity.
+  - exists 0. destruct (nth jid (s_joins s) (0, false)) as [nb failed]. eexists. reflexivity.
   - exists 0. eexists. reflexivity.
   - exists 0. destruct Fo as [F1 F2]. unfold getN. rewrite F2. rewrite andb_false_r.
     destruct (g_handle_inv (s_nodes s) c r) as [g fired]. eexists. reflexivity.
@@ -132,54 +152,103 @@ Qed.
 Lemma anchor_is_anchor : forall r f, anchor r f = true -> is_anchor f = true.
 Proof. intros r f H. destruct f; simpl in *; try discriminate; reflexivity. Qed.
 
-Lemma blocked_not_anchor_script : forall s f, blocked s f = true -> is_anchor f = false /\ script_kind f = false.
-Proof. intros s f H. destruct f; simpl in *; try discriminate; split; reflexivity. Qed.
-
 Lemma has_anchor_in : forall st f, In f st -> is_anchor f = true -> has_anchor st = true.
 Proof. intros st f Hin Ha. unfold has_anchor. apply existsb_exists. exists f. split; assumption. Qed.
 
-(** a task whose top frame is not blocked can take a step *)
+Record invs (s : state) : Prop := {
+  i_closed : closed_inv s; i_mutex : mutex_inv s; i_tasks : tasks_ok s; i_join : join_inv s;
+  i_jtasks : jtasks_ok s; i_uw : uwtasks_ok s; i_self : no_self_hit s }.
+
+(** a task whose top frame is not waiting can take a step *)
 Lemma task_can_step : forall s tid f rest,
-  closed_inv s -> mutex_inv s -> tasks_ok s ->
-  In (tid, f :: rest) (s_tasks s) -> blocked s f = false ->
+  invs s -> In (tid, f :: rest) (s_tasks s) -> blocked s f = false ->
   exists arg s', step s (LTask tid arg) = Some s'.
 Proof.
-  intros s tid f rest Cl Mx [Nd Ok] Hin Nb.
+  intros s tid f rest I Hin Nb. destruct (i_tasks s I) as [Nd Ok].
   destruct (Ok _ _ Hin) as [_ [_ [Nm _]]].
-  destruct (top_enabled s f rest Cl Mx (in_all_frames _ _ _ _ Hin (or_introl eq_refl)) Nm Nb) as [arg [[[s1 st] sp] T]].
+  destruct (top_enabled s f rest (i_closed s I) (i_mutex s I) (i_self s I) (i_uw s I _ _ Hin)
+              (in_all_frames _ _ _ _ Hin (or_introl eq_refl)) Nm Nb) as [arg [[[s1 st] sp] T]].
   exists arg. unfold step. rewrite (find_task_in _ _ _ Nd Hin), T. eexists. reflexivity.
 Qed.
 
-(** PROGRESS *)
-Lemma progress_lemma : forall k progs s,
-  progs_ok k progs -> reachable (init k progs) s -> s_tasks s <> [] ->
-  exists tid arg s', step s (LTask tid arg) = Some s'.
+Definition can_step (s : state) : Prop := exists tid arg s', step s (LTask tid arg) = Some s'.
+
+(** a task waiting for a join: one of the branch goroutines it waits for can step, or waits for a younger join *)
+Lemma join_waiter : forall n s tid r jid rest,
+  invs s -> In (tid, FJoin r jid :: rest) (s_tasks s) -> length (s_joins s) - jid <= n -> can_step s.
 Proof.
-  intros k progs s Pk R Ne.
-  assert (Cl := reachable_closed _ _ _ Pk R). assert (Mx := reachable_mutex _ _ _ R). assert (Tk := reachable_tasks_ok _ _ _ R).
+  induction n as [|n IH]; intros s tid r jid rest I Hin Hn.
+  - exfalso. destruct (i_join s I) as [A _]. assert (K := A (FJoin r jid) (in_all_frames _ _ _ _ Hin (or_introl eq_refl))). simpl in K. lia.
+  - destruct (blocked s (FJoin r jid)) eqn:B; [|destruct (task_can_step _ _ _ _ I Hin B) as [arg [s' Q]]; exists tid, arg, s'; exact Q].
+    simpl in B. apply negb_true_iff in B. apply Nat.eqb_neq in B.
+    destruct (i_join s I) as [A Cn]. specialize (Cn jid).
+    assert (Hb : exists b, In b (all_frames s) /\ is_bend jid b = true).
+    { assert (Pos : 0 < count (is_bend jid) (all_frames s)) by lia. clear - Pos.
+      induction (all_frames s) as [|g t IHt]; simpl in Pos; [lia|].
+      destruct (is_bend jid g) eqn:E; [exists g; split; [left; reflexivity | exact E]|].
+      destruct (IHt Pos) as [b [B1 B2]]. exists b. split; [right; exact B1 | exact B2]. }
+    destruct Hb as [b [Bin Bb]]. destruct b; simpl in Bb; try discriminate. apply Nat.eqb_eq in Bb. subst jid0.
+    destruct (all_frames_in _ _ Bin) as [tid' [st' [Hin' Hst']]].
+    destruct (i_tasks s I) as [Nd Ok]. destruct (Ok _ _ Hin') as [_ [Nst _]].
+    destruct st' as [|f' rest']; [congruence|].
+    destruct (blocked s f') eqn:Bf; [|destruct (task_can_step _ _ _ _ I Hin' Bf) as [arg [s' Q]]; exists tid', arg, s'; exact Q].
+    destruct (i_jtasks s I _ _ Hin') as [Js Bd].
+    destruct Hst' as [Q|Hst']; [subst f'; simpl in Bf; discriminate|].
+    assert (Inb : In jid (bends rest')) by (apply bends_in; exact Hst').
+    destruct Js as [J1 [J2 _]].
+    assert (Ok' : above_bend_ok f' = true) by (apply J1; intros Q; rewrite Q in Inb; contradiction).
+    destruct f'; simpl in Bf, Ok'; try discriminate.
+    (* the branch goroutine itself waits for a younger join *)
+    assert (Lt : jid < jid0) by (eapply J2; [reflexivity | exact Inb]).
+    eapply (IH s tid' r0 jid0 rest'); [exact I | exact Hin'|].
+    assert (K := A (FJoin r0 jid0) (in_all_frames _ _ _ _ Hin' (or_introl eq_refl))). simpl in K. lia.
+Qed.
+
+(** PROGRESS *)
+Lemma progress_invs : forall s, invs s -> s_tasks s <> [] -> can_step s.
+Proof.
+  intros s I Ne.
   destruct (s_tasks s) as [|[tid0 st0] ts] eqn:Ets; [congruence|].
   assert (Hin0 : In (tid0, st0) (s_tasks s)) by (rewrite Ets; left; reflexivity).
-  destruct Tk as [Nd Ok]. destruct (Ok _ _ Hin0) as [_ [Ne0 _]].
+  destruct (i_tasks s I) as [Nd Ok]. destruct (Ok _ _ Hin0) as [_ [Ne0 _]].
   destruct st0 as [|f0 rest0]; [congruence|].
-  destruct (blocked s f0) eqn:B0.
-  - (* waiting for r.mu: the holder can step *)
-    assert (Hr : exists r, r_mu (getr s r) = true) by (destruct f0; simpl in B0; try discriminate; [|destruct cancelled; try discriminate]; eexists; exact B0).
-    destruct Hr as [r Mu].
-    assert (Lr : r < length (s_rrs s)).
-    { destruct (Nat.lt_ge_cases r (length (s_rrs s))) as [L|L]; [exact L|]. unfold getr in Mu. rewrite nth_overflow in Mu by exact L. discriminate. }
-    destruct (Mx r Lr) as [M1 _]. unfold getr in Mu. rewrite Mu in M1. simpl in M1.
-    assert (Ha : exists a, In a (all_frames s) /\ anchor r a = true).
-    { clear - M1. induction (all_frames s) as [|g t IH]; simpl in M1; [discriminate|].
-      destruct (anchor r g) eqn:A; [exists g; split; [left; reflexivity | exact A]|].
-      destruct (IH M1) as [a [A1 A2]]. exists a. split; [right; exact A1 | exact A2]. }
-    destruct Ha as [a [Ain Aa]]. destruct (all_frames_in _ _ Ain) as [tid [st [Hin Hst]]].
-    destruct (Ok _ _ Hin) as [_ [Nst [_ Sh]]].
-    destruct st as [|f rest]; [congruence|].
-    assert (Nb : blocked s f = false).
-    { destruct (blocked s f) eqn:Bf; [|reflexivity]. exfalso.
-      destruct (blocked_not_anchor_script _ _ Bf) as [Na Ns].
-      destruct Hst as [<-|Hst]; [rewrite (anchor_is_anchor _ _ Aa) in Na; discriminate|].
-      destruct Sh as [S1 _]. rewrite (S1 (has_anchor_in _ _ Hst (anchor_is_anchor _ _ Aa))) in Ns. discriminate. }
-    destruct (task_can_step s tid f rest Cl Mx (conj Nd Ok) Hin Nb) as [arg [s' Q]]. exists tid, arg, s'. exact Q.
-  - destruct (task_can_step s tid0 f0 rest0 Cl Mx (conj Nd Ok) Hin0 B0) as [arg [s' Q]]. exists tid0, arg, s'. exact Q.
+  destruct (blocked s f0) eqn:B0; [|destruct (task_can_step _ _ _ _ I Hin0 B0) as [arg [s' Q]]; exists tid0, arg, s'; exact Q].
+  assert (Cases : (exists r, r_mu (getr s r) = true) \/ exists r jid, f0 = FJoin r jid).
+  { destruct f0; simpl in B0; try discriminate; [left; eexists; exact B0 | right; eexists; eexists; reflexivity | destruct cancelled; [left; eexists; exact B0 | discriminate]]. }
+  destruct Cases as [[r Mu]|[r [jid ->]]]; [|eapply (join_waiter _ s tid0 r jid rest0); [exact I | exact Hin0 | apply Nat.le_refl]].
+  (* waiting for r.mu: the holder can step, or waits for a join *)
+  assert (Lr : r < length (s_rrs s)).
+  { destruct (Nat.lt_ge_cases r (length (s_rrs s))) as [L|L]; [exact L|]. unfold getr in Mu. rewrite nth_overflow in Mu by exact L. discriminate. }
+  destruct (i_mutex s I r Lr) as [M1 _]. unfold getr in Mu. rewrite Mu in M1. simpl in M1.
+  assert (Ha : exists a, In a (all_frames s) /\ anchor r a = true).
+  { clear - M1. induction (all_frames s) as [|g t IH]; simpl in M1; [discriminate|].
+    destruct (anchor r g) eqn:A; [exists g; split; [left; reflexivity | exact A]|].
+    destruct (IH M1) as [a [A1 A2]]. exists a. split; [right; exact A1 | exact A2]. }
+  destruct Ha as [a [Ain Aa]]. destruct (all_frames_in _ _ Ain) as [tid [st [Hin Hst]]].
+  destruct (Ok _ _ Hin) as [_ [Nst [_ Sh]]].
+  destruct st as [|f rest]; [congruence|].
+  destruct (blocked s f) eqn:Bf; [|destruct (task_can_step _ _ _ _ I Hin Bf) as [arg [s' Q]]; exists tid, arg, s'; exact Q].
+  assert (Fj : exists r' j', f = FJoin r' j').
+  { destruct Hst as [Q|Hst]; [subst a; destruct f; simpl in Aa, Bf; try discriminate|].
+    destruct Sh as [S1 _]. assert (Sk := S1 (has_anchor_in _ _ Hst (anchor_is_anchor _ _ Aa))).
+    destruct f; simpl in Sk, Bf; try discriminate. eexists; eexists; reflexivity. }
+  destruct Fj as [r' [j' ->]]. eapply (join_waiter _ s tid r' j' rest); [exact I | exact Hin | apply Nat.le_refl].
 Qed.
+
+Lemma reachable_invs : forall k progs s,
+  progs_ok k progs -> reachable (init k progs) s -> no_self_hit s -> invs s.
+Proof.
+  intros k progs s Pk R Ns. constructor.
+  - eapply reachable_closed; eauto.
+  - eapply reachable_mutex; eauto.
+  - eapply reachable_tasks_ok; eauto.
+  - eapply reachable_join; eauto.
+  - eapply reachable_jtasks; eauto.
+  - eapply reachable_uwtasks; eauto.
+  - exact Ns.
+Qed.
+
+Lemma progress_lemma : forall k progs s,
+  progs_ok k progs -> reachable (init k progs) s -> no_self_hit s -> s_tasks s <> [] ->
+  exists tid arg s', step s (LTask tid arg) = Some s'.
+Proof. intros k progs s Pk R Ns Ne. apply progress_invs; [eapply reachable_invs; eauto | exact Ne]. Qed.
